@@ -167,7 +167,7 @@ def g_token(rng, kf=True):
     if x < 0.74:
         raw, val = g_raw(rng, 34)
         enc = rng.choice([0, 0, 0, 2, 4, 8, 16])
-        if kf and rng.random() < 0.015:
+        if kf and rng.random() < 0.002:
             enc |= 1                                       # raw string: known finding
             val = [c for c in val if c not in (34, 41)]
         return "S%d.%s.%s" % (enc, hx(val), hx(g_udf(rng).encode()))
@@ -181,7 +181,7 @@ def g_token(rng, kf=True):
             txt = txt.replace(b"*/", b"* /")
         if txt.startswith(b"/"):
             txt = b" " + txt
-        if kf and rng.random() < 0.02:
+        if kf and rng.random() < 0.003:
             txt = rng.choice([b"/ x ", b" a \\*/ b ", b"\\"]) + txt
         return "K" + hx(b"/*" + txt + b"*/")
     if x < 0.96:
